@@ -224,7 +224,7 @@ pub fn gen_for(target: Target, rng: &mut Rng) -> Node {
         }
         Target::Tup => Node::Seq(vec![Node::Int(rng.below(100) as i64), Node::Int(-(rng.below(100) as i64))]),
         Target::TupS => Node::Seq(vec![Node::Int(rng.below(100) as i64), Node::Str(gen_string(rng))]),
-        Target::Map | Target::RcMap => {
+        Target::Map | Target::RcMap | Target::GreedyMap => {
             let n = rng.below(6);
             Node::Map((0..n).map(|i| (gen_key(rng, i), Node::Str(gen_string(rng)))).collect())
         }
